@@ -274,6 +274,13 @@ def check(run: Run) -> None:
 
     # ---------------- R6
     check_inherited_lookup(run, m, "C07.R6")
+    # a typed call reached through a field of a dictionary literal is only normalised if the literal was typed
+    from ..lib import used_visitor
+    from .c10 import check_dict_typing
+
+    run.rule("C07.R7", "dictionary literals are typed whenever their keys can be dataclass fields (shared with C08.R7 / C10.R3)")
+    tctx = TermCtx(m, max_depth=1, opaque={"lookup_type", "remap_by_types"})
+    check_dict_typing(run, tctx, m, used_visitor(m, tctx, m.find_func("remap_by_types", in_module=mod), True), "C07.R7")
 
 
 def _self_fact(a: ast.AST, pol: bool):
@@ -419,9 +426,42 @@ def _merge_order(fa, fi: FuncInfo, e: ast.AST, kt):
     return None
 
 
+def check_backlink_values(run: Run, ctx, m, mod: str, rule: str) -> None:
+    """Every `X._old_ast = V` in the type follower: V names the node X replaces - a different node than X - and when
+    the link is taken over from an earlier replacement (getattr(R, "_old_ast", R)) it is taken from the *replaced*
+    node R, with R itself as the fall-back; reading it from the new node finds nothing and the chain to the user's
+    call is cut."""
+    n_st = 0
+    for fi in [f for f in m.funcs.values() if f.module.name == mod]:
+        fa = None
+        for n in own_nodes(fi):
+            if not (isinstance(n, ast.Assign) and len(n.targets) == 1 and isinstance(n.targets[0], ast.Attribute) and n.targets[0].attr == "_old_ast"):
+                continue
+            fa = fa or ctx.analysis(fi)
+            if not fa.cfg.has_node(n):
+                continue
+            n_st += 1
+            tgt = strip_sites(fa.term_of(n.targets[0].value))
+            tgt = tgt[1] if tgt[0] == "upd" else tgt
+            val = strip_sites(fa.term_of(n.value))
+            alts = list(unphi_terms(val))
+            for alt in alts:
+                # getattr(R, "_old_ast", R) reads as the alternatives R._old_ast | R
+                if alt[0] == "attr" and alt[2] == "_old_ast":
+                    src = alt[1]
+                    others = [a for a in alts if not (a[0] == "attr" and a[2] == "_old_ast")]
+                    run.check(src in others, rule, fi, n, "an inherited back-link is read from the replaced node, which is also the fall-back", f"the back-link is taken over from {show(src)[:60]} but otherwise is {', '.join(show(o)[:40] for o in others) or 'nothing'}: the link of the node that was replaced is not carried over, so a rewrite of a call site that was already replaced once (defaults filled in, then a callback) is not patched into the emitted lambda", 'getattr(replaced, "_old_ast", replaced)', show(val), key="back-link read from another node than its fall-back")
+                    root = src
+                else:
+                    root = alt
+                run.check(root != tgt, rule, fi, n, "a node's back-link points at another node", f"{show(tgt)[:60]}._old_ast is (read from) the node itself: the chain back to the user's call is cut", "", show(val), key="back-link points at the node itself")
+    run.floor(rule, n_st, 3, "_old_ast back-link stores in the type follower")
+
+
 def check_patch_back(run: Run, ctx, m, mod: str, rule: str) -> None:
     """fixup_ast_from_modifications: what a processed copy of a call gained is copied back, unconditionally, to the
     call it replaces (also used by C09.R6: a callback's rewrite of a call that is the body of a nested lambda)."""
+    check_backlink_values(run, ctx, m, mod, rule)
     fx_fn = m.find_func("fixup_ast_from_modifications", in_module=mod)
     from ..lib import used_visitor
 
